@@ -298,6 +298,14 @@ func (db *SpanFile) scanFile() error {
 		// and mark the rest as free.
 		if magicNumber == 0 {
 			SpanLog("Marking rest of file as free space: span%v:%v/%v", offset, fileSize-offset, fileSize)
+			if !db.readOnly {
+				// The file was grown but the span was never written (crash). Make
+				// the zero tail a real FREE span: otherwise a later record that
+				// does not fit into it is appended behind the zeros, where the
+				// next scan (which stops at the zeros) cannot find it.
+				binary.BigEndian.PutUint32(db.mmapData[offset:offset+4], freeMagic)
+				binary.BigEndian.PutUint32(db.mmapData[offset+4:offset+8], uint32(fileSize-offset))
+			}
 			db.addFreeSpan(uint64(offset), uint64(fileSize-offset))
 			offset = fileSize
 			break
